@@ -124,6 +124,9 @@ Accept(e) ==
     \* the same source read by several queries of one statement (UNION ALL over a common table expression or
     \* sub-query) or again by a later statement: what each part gives alone, in order (C14)
     [] e.kind = "concat"   -> e.whole = Concat(e.parts)
+    \* one statement with the select-list items of several: row by row the texts of the parts side by side ("|" between cells)
+    [] e.kind = "columns"  -> /\ \A p \in 1..Len(e.parts) : Len(e.parts[p]) = Len(e.whole)
+                              /\ \A i \in 1..Len(e.whole) : e.whole[i] = e.parts[1][i] \o "|" \o e.parts[2][i]
     \* FROM t, LATERAL (SELECT COUNT(*) FROM u WHERE u.c = t.c): one row per row of t, in order, with its own count
     [] e.kind = "lateralcount" ->
          /\ Len(e.res) = Len(e.L)
